@@ -10,7 +10,7 @@ import (
 func init() { register("C23", propC23) }
 
 func propC23(c *Check) {
-	c.Explain = "Decides the key-family structure of the proposal queue: (1) cacheStoreTransaction writes the PAYLOAD family only; cacheQueueTransaction writes ORDER, PAYLOAD and QUEUE in one cacheDB write transaction; the QUEUE family is set nowhere else; (2) CacheRetrieveTransactions works in one cacheDB.Update, iterates the QUEUE prefix only, deletes exactly QUEUE and ORDER keys (the visited queue key and the order key of its hash) and never writes or deletes PAYLOAD; its scan continues only while len(txs) < limit; a per-hash filter test precedes the append and the filter is filled; only bodies read through cacheReadTransaction are appended; (3) CacheRemoveTransactions deletes PAYLOAD and ORDER; (4) kernel: CacheStoreTransactions (payload-only peer path) reaches CacheStoreTransaction but never CacheQueueTransaction; CacheQueueTransactions reaches CacheQueueTransaction; retrieval is called only by the cache-queue loop; (5) every success return of Node.QueueTransaction passes CacheQueueTransaction unless the transaction is already finalized; (6) openDB never turns Badger conflict detection off."
+	c.Explain = "Decides the key-family structure of the proposal queue: (1) cacheStoreTransaction writes the PAYLOAD family only; cacheQueueTransaction writes ORDER, PAYLOAD and QUEUE in one cacheDB write transaction; the QUEUE family is set nowhere else; (2) CacheRetrieveTransactions works in one cacheDB.Update, iterates the QUEUE prefix only, deletes exactly QUEUE and ORDER keys (the visited queue key and the order key of its hash) and never writes or deletes PAYLOAD; its scan continues only while len(txs) < limit; a per-hash filter test precedes the append and the filter is filled; only bodies read through cacheReadTransaction are appended; (3) CacheRemoveTransactions deletes PAYLOAD and ORDER; (4) kernel: CacheStoreTransactions (payload-only peer path) reaches CacheStoreTransaction but never CacheQueueTransaction; CacheQueueTransactions reaches CacheQueueTransaction; retrieval is called only by the cache-queue loop; (5) every success return of Node.QueueTransaction passes CacheQueueTransaction unless the transaction is already finalized; (6) openDB never turns Badger conflict detection off. (7) a body that cacheReadTransaction returned is appended before the iteration completes; the dequeue loop of popAndProcessCacheQueue and the two peer delivery loops visit every element; a transaction not cached before is queued only after tx.Validate returned nil."
 	c.NotCov = "interleavings on the optimistic cache DB (ErrConflict retries), TTL expiry of records, and the run-time order of queue keys."
 	c.Floor(14)
 	w := c.W
